@@ -78,7 +78,7 @@ def grad(model_out, *derivative_variable):
     for vari in derivative_variable:
         new_grad = _derivative(model_out.sum(), vari)
         grad.append(new_grad)
-    return torch.column_stack(grad)
+    return torch.cat(grad, dim=-1)
 
 
 """
